@@ -1262,13 +1262,34 @@ pub fn explicit_cells(seed: u64) -> Vec<Scenario> {
         }
     }
     // B. delta A B: operand class x git version x status
-    for (oclass, oa, ob) in [("regular", "a.txt", "b.txt"), ("subst-first", "/dev/fd/63", "b.txt"), ("subst-second", "a.txt", "/proc/self/fd/12"), ("subst-both", "/dev/fd/63", "/dev/fd/62")] {
-        for gv in ["git version 2.39.5", "git version 2.42.0", "git version 2.45.1", "git version 1.9.1"] {
+    for (oclass, oa, ob) in [
+        ("regular", "a.txt", "b.txt"),
+        ("subst-first", "/dev/fd/63", "b.txt"),
+        ("subst-second", "a.txt", "/proc/self/fd/12"),
+        ("subst-both", "/dev/fd/63", "/dev/fd/62"),
+        // the same file twice, one side /dev/null, directories, operands that do not exist
+        ("same-file", "a.txt", "a.txt"),
+        ("same-file-other-spelling", "a.txt", "./a.txt"),
+        ("dev-null", "/dev/null", "b.txt"),
+        ("directories", "da", "db"),
+        ("missing-both", "nope1", "nope2"),
+        ("missing-same", "nope1", "nope1"),
+        ("missing-one", "a.txt", "nope2"),
+    ] {
+        // a git that answers --version with something unusable means: plain diff is the differ
+        for gv in ["git version 2.39.5", "git version 2.42.0", "git version 2.45.1", "git version 1.9.1", "", "git version 2", "git version 2.39.3 (Apple Git-146)"] {
+            let basic_operands = matches!(oclass, "regular" | "subst-first" | "subst-second" | "subst-both");
+            if !basic_operands && !matches!(gv, "git version 2.45.1" | "") {
+                continue;
+            }
+            if basic_operands && matches!(gv, "git version 2" | "git version 2.39.3 (Apple Git-146)") && oclass != "regular" && oclass != "subst-both" {
+                continue;
+            }
             for st in [0, 1, 2] {
                 let mut spec = RunSpec::default();
                 spec.plan = Plan::basic(mix(seed, &[tag("cellhash2"), out.len() as u64]));
                 spec.args = vec!["--paging".into(), "never".into(), "--no-gitconfig".into(), "--width".into(), "100".into(), oa.into(), ob.into()];
-                spec.files = vec![("a.txt".into(), Blob::from("one\n")), ("b.txt".into(), Blob::from("two\n"))];
+                spec.files = vec![("a.txt".into(), Blob::from("one\n")), ("b.txt".into(), Blob::from("two\n")), ("da/f.txt".into(), Blob::from("one\n")), ("db/f.txt".into(), Blob::from("two\n"))];
                 let outp = if st == 1 { diff.clone() } else { Vec::new() };
                 let stderr = if st >= 2 { "error: Could not access 'x'\n" } else { "" };
                 spec.child = Some(ChildSetup { names: vec!["git".into(), "diff".into()], stdout: outp.into(), stderr: stderr.into(), stderr_first: false, exit: st, git_version: gv.into() });
